@@ -95,6 +95,11 @@ func convertAttrToField(attr slog.Attr) zapcore.Field {
 	case slog.KindUint64:
 		return zap.Uint64(attr.Key, attr.Value.Uint64())
 	case slog.KindGroup:
+		// The slog.Handler contract: a group without attributes is ignored,
+		// whatever its key.
+		if len(attr.Value.Group()) == 0 {
+			return zap.Skip()
+		}
 		if attr.Key == "" {
 			// Inlines recursively.
 			return zap.Inline(groupObject(attr.Value.Group()))
@@ -222,6 +227,11 @@ func (h *Handler) WithAttrs(attrs []slog.Attr) slog.Handler {
 // WithGroup returns a new Handler with the given group appended to
 // the receiver's existing groups.
 func (h *Handler) WithGroup(group string) slog.Handler {
+	// The slog.Handler contract: an empty name opens no group.
+	if group == "" {
+		return h
+	}
+
 	newGroups := make([]string, len(h.groups)+1)
 	copy(newGroups, h.groups)
 	newGroups[len(h.groups)] = group
